@@ -135,8 +135,8 @@ static inline int    cxx2c_abs (int x) { return x < 0 ? -x : x; }
 static inline long   cxx2c_labs (long x) { return x < 0 ? -x : x; }
 static inline long long cxx2c_llabs (long long x) { return x < 0 ? -x : x; }
 #define cxx2c_isnan(x) ((x) != (x))
-#define cxx2c_isinf(x) (isinf (x))
-#define cxx2c_isfinite(x) (isfinite (x))
+#define cxx2c_isinf(x) ((x) == (x) && ((x) - (x)) != ((x) - (x)))
+#define cxx2c_isfinite(x) (((x) - (x)) == ((x) - (x)))
 #define cxx2c_floorf floorf
 #define cxx2c_floor floor
 #define cxx2c_ceilf ceilf
